@@ -144,8 +144,15 @@ func (rule *RulePyflakes) runPyflakes(src string, pos *Pos) {
 func (rule *RulePyflakes) parseNextError(stdout []byte, pos *Pos) ([]byte, error) {
 	b := stdout
 
-	// Search the start of error message.
-	idx := bytes.Index(b, []byte("<stdin>:"))
+	// Search the start of error message. It is at the start of a line. "<stdin>:" in the middle of a
+	// line is a part of the source which pyflakes echoes for a syntax error
+	idx := 0
+	if !bytes.HasPrefix(b, []byte("<stdin>:")) {
+		idx = bytes.Index(b, []byte("\n<stdin>:"))
+		if idx != -1 {
+			idx++
+		}
+	}
 	if idx == -1 {
 		// Syntax errors from pyflake consist of multiple lines. Skip subsequent lines. (#411)
 		// ```
